@@ -485,6 +485,19 @@ func c15Classify(d *dialectAPI, cs []schema.Change) []string {
 					continue
 				}
 			}
+			if mc, ok := s.(*schema.ModifyCheck); ok && mc.From.Name == mc.To.Name && mc.From.Expr == mc.To.Expr {
+				// the same check up to a dialect flag
+				var ef, et mysql.Enforced
+				hf, ht := sqlx2Has(mc.From.Attrs, &ef), sqlx2Has(mc.To.Attrs, &et)
+				if d.name == "mysql" && (hf || ht) && (!hf || ef.V) != (!ht || et.V) {
+					m["mysql-check-not-enforced-marshalled-as-enforced"] = true
+					continue
+				}
+				if d.name == "postgres" && hasNoInherit(mc.From.Attrs) != hasNoInherit(mc.To.Attrs) {
+					m["postgres-check-no-inherit-not-marshalled"] = true
+					continue
+				}
+			}
 			m[fmt.Sprintf("roundtrip-diff:%s:%T", d.name, s)] = true
 		}
 	}
@@ -494,6 +507,25 @@ func c15Classify(d *dialectAPI, cs []schema.Change) []string {
 	}
 	sort.Strings(out)
 	return out
+}
+
+func sqlx2Has(attrs []schema.Attr, e *mysql.Enforced) bool {
+	for _, a := range attrs {
+		if x, ok := a.(*mysql.Enforced); ok {
+			*e = *x
+			return true
+		}
+	}
+	return false
+}
+
+func hasNoInherit(attrs []schema.Attr) bool {
+	for _, a := range attrs {
+		if _, ok := a.(*postgres.NoInherit); ok {
+			return true
+		}
+	}
+	return false
 }
 
 // c15AttrTables: attributes other than types.
@@ -592,6 +624,30 @@ func c15AttrTables(d *dialectAPI, r *hx.Rand) []*schema.Table {
 		tp.SetPrimaryKey(schema.NewPrimaryKey().AddParts(&schema.IndexPart{C: pa, Attrs: []schema.Attr{&mysql.SubPart{Len: 10}}}, &schema.IndexPart{C: pb, Desc: true}))
 		out = append(out, tp)
 	}
+	// several checks without a name next to a named one (SQLite tables usually look like this), checks carrying
+	// the dialect's flags, and a numeric default with more digits than a float32 keeps
+	tc := schema.NewTable("attrs_checks")
+	ca, cb, cc := schema.NewColumn("a").SetType(intT()), schema.NewColumn("b").SetType(txtT()), schema.NewColumn("c").SetType(intT()).SetNull(true)
+	tc.AddColumns(ca, cb, cc).SetPrimaryKey(schema.NewPrimaryKey(ca))
+	tc.AddChecks(
+		schema.NewCheck().SetExpr("(a > 0)"),
+		schema.NewCheck().SetExpr("(b <> '')"),
+		schema.NewCheck().SetName("named").SetExpr("(a < 1000)"),
+		schema.NewCheck().SetExpr("(c IS NULL OR c > a)"),
+	)
+	switch d.name {
+	case "mysql":
+		tc.AddChecks(schema.NewCheck().SetName("not_enforced").SetExpr("(a <> 7)").AddAttrs(&mysql.Enforced{V: false}), schema.NewCheck().SetName("enforced").SetExpr("(a <> 8)").AddAttrs(&mysql.Enforced{V: true}))
+		tc.AddColumns(schema.NewColumn("pi").SetType(&schema.FloatType{T: "double"}).SetDefault(&schema.Literal{V: "3.14159265358979"}))
+	case "postgres":
+		tc.AddChecks(schema.NewCheck().SetName("no_inherit").SetExpr("(a <> 7)").AddAttrs(&postgres.NoInherit{}))
+		tc.AddColumns(schema.NewColumn("pi").SetType(&schema.FloatType{T: "double precision", Precision: 53}).SetDefault(&schema.Literal{V: "3.14159265358979"}))
+	default:
+		tc.AddColumns(schema.NewColumn("pi").SetType(&schema.FloatType{T: "real"}).SetDefault(&schema.Literal{V: "3.14159265358979"}))
+		// the index SQLite itself creates (and names) for an inline UNIQUE constraint, as inspected
+		tc.AddIndexes(schema.NewUniqueIndex("sqlite_autoindex_attrs_checks_1").AddColumns(cb))
+	}
+	out = append(out, tc)
 	// auto increment / identity / generated / on update / charset
 	t3 := schema.NewTable("attrs_special")
 	k := schema.NewColumn("k")
